@@ -90,9 +90,11 @@ func (d *deepCopier) deepCopyIface(in, out reflect.Value) {
 	inElem := in.Elem()
 	switch inElem.Kind() {
 	case reflect.Ptr:
-		newVal := reflect.New(inElem.Type().Elem())
+		// go through deepCopyPtr so nil pointers, shared pointers and
+		// reference cycles are handled the same way as for pointer fields.
+		newVal := reflect.New(inElem.Type()).Elem()
+		d.deepCopyPtr(inElem, newVal)
 		out.Set(newVal)
-		d.deepCopy(inElem.Elem(), newVal.Elem())
 		return
 	case reflect.Struct:
 		newVal := reflect.New(inElem.Type())
